@@ -10,7 +10,9 @@
 (*     bracegroup = parameter list containing brace groups, arrow = the    *)
 (*     `const f = (..) => {` form closed by `};`, throws = a throws clause *)
 (*     between header and body, lineabove = a decorator / annotation /     *)
-(*     attribute / template / return-type line above the header)           *)
+(*     attribute / template / return-type line above the header, tailwrap  *)
+(*     = the tokens between `)` and the body - throws list, return type -  *)
+(*     on two lines of their own: three header lines)                      *)
 (*   K class   C control statement (variants if, loop, try)                *)
 (*   E else / catch / except   A anonymous function                        *)
 (*   X close of the innermost open construct                               *)
@@ -98,7 +100,7 @@ Encl(p) == LET c == { i \in Funcs : i < p /\ p <= CloseOf(i) } IN
 Owner(p) == IF prog[p].k = "F" THEN p ELSE Encl(p)
 Lines(fam, it) == CASE it.k = "S" -> it.n
                     [] it.k = "M" -> 3
-                    [] it.k = "F" -> (IF it.v \in {"multi", "lineabove"} \/ (it.v = "nextbrace" /\ fam # "indent") THEN 2 ELSE 1)
+                    [] it.k = "F" -> (IF it.v = "tailwrap" THEN 3 ELSE IF it.v \in {"multi", "lineabove"} \/ (it.v = "nextbrace" /\ fam # "indent") THEN 2 ELSE 1)
                     [] it.k = "X" -> (IF fam = "indent" THEN 0 ELSE 1)
                     [] OTHER -> 1
 (* lines of a header item that lie ABOVE the header proper and belong to the enclosing scope *)
